@@ -188,6 +188,21 @@ def binding_programs():
         for sh in call_shapes(pos, kos, npo):
             lines += ["try:", f"    R.append(f({sh}))", "except Exception as e:", "    R.append(type(e).__name__)"]
         progs.append(("binding", "\n".join(lines)))
+    # the same table for every third signature with a function that wraps its parameters in closure cells (it contains a
+    # nested function reading them), None among the defaults and None / falsy values among the arguments
+    for si, (sig, ret, pos, kos, npo) in enumerate(signatures()):
+        if si % 3 or not ret:
+            continue
+        sig_n = sig.replace("='d" + pos[-1] + "'", "=None") if pos else sig
+        if kos:
+            sig_n = sig_n.replace("='dk0'", "=None")
+        lines = [f"def f({sig_n}):", "    def inner():", f"        return ({', '.join(ret)},)", "    return inner()", "R = []"]
+        for sh in call_shapes(pos, kos, npo):
+            sh_n = sh.replace("2", "None", 1).replace("3", "0", 1).replace("'zzv'", "None")
+            if kos:
+                sh_n = sh_n.replace(f"'{kos[0]}v'", "None")
+            lines += ["try:", f"    R.append(f({sh_n}))", "except Exception as e:", "    R.append(type(e).__name__)"]
+        progs.append(("binding-cells", "\n".join(lines)))
     return progs
 
 
@@ -290,13 +305,13 @@ class ScopeGen:
                 eb = set()
                 if not is_module:
                     eb = {x for x in strong if x not in decl_global and x not in decl_nonlocal}
-                params = R.choice(["", "", nm, f"{nm}='{t}d'"])
+                params = R.choice(["", "", nm, f"{nm}='{t}d'", f"{nm}=None"])
                 L.append(f"{pad}def {gname}({params}):")
                 self._params = {params.split("=")[0]} if params else set()
                 body = self.func_body(depth + 1, ind + 1, gname, eb, hidden=frozenset(hidden | decl_global | decl_nonlocal))
                 L += body
                 L.append(f"{pad}    return '{gname}r'")
-                call = f"{gname}('{t}arg')" if params and "=" not in params else f"{gname}()"
+                call = f"{gname}({R.choice([repr(t + 'arg'), repr(t + 'arg'), 'None'])})" if params and "=" not in params else f"{gname}()"
                 inner.append((gname, call))
                 if R.bool(2, 3):
                     L += [f"{pad}try:", f"{pad}    T('{t}c', {call})", f"{pad}except NameError:", f"{pad}    T('{t}c', 'NEcall')"]
@@ -306,6 +321,14 @@ class ScopeGen:
                     L += self.read(nm, ind)
                     continue
                 cname = f"K{t}"
+                if R.bool(1, 3):
+                    # a class body that raises: the statement binds nothing and the enclosing scope is in force again
+                    L += [f"{pad}try:", f"{pad}    class {cname}:", f"{pad}        {nm} = 'cls{t}'", f"{pad}        T('{t}kb', {nm})",
+                          f"{pad}        raise KeyError('{t}')", f"{pad}except KeyError:", f"{pad}    pass"]
+                    L += [f"{pad}try:", f"{pad}    T('{t}kn', {cname}.{nm})", f"{pad}except NameError:", f"{pad}    T('{t}kn', 'NEcls')"]
+                    L += self.read(nm, ind)
+                    L += [f"{pad}z{t} = 'z{t}'", f"{pad}T('{t}kz', z{t})"]
+                    continue
                 L += [f"{pad}class {cname}:", f"{pad}    {nm} = 'cls{t}'", f"{pad}    y = {nm}"]
                 L += [f"{pad}    def m(self):"] + self.read(nm, ind + 2) + [f"{pad}        return self.{nm}"]
                 L += [f"{pad}o{t} = {cname}()", f"{pad}T('{t}k', ({cname}.y, o{t}.m()))"]
@@ -576,6 +599,7 @@ REGRESS = [
     ("global-decl", "x = 1\ndef f():\n    global x, y\n    x = 2\n    y = 3\nf()\nr = (x, y)"),
     ("unbound-local", "x = 1\ndef f():\n    try:\n        r = x\n    except NameError:\n        r = 'NE'\n    x = 2\n    return r\nr = f()"),
     ("class-scope", "x = 'g'\nclass K:\n    x = 'c'\n    def m(self):\n        return x\nr = (K.x, K().m())"),
+    ("class-body-raises", "def f():\n    a = 1\n    try:\n        class K:\n            x = 1\n            raise ValueError\n    except ValueError:\n        pass\n    y = 2\n    try:\n        K\n        k = 'bound'\n    except NameError:\n        k = 'NE'\n    return (a, y, k)\nr = f()\ntry:\n    class M:\n        raise KeyError\nexcept KeyError:\n    pass\nz = 3"),
     ("default-once", "def f(a=[]):\n    a.append(1)\n    return a\nf()\nr = f()"),
 ]
 
